@@ -1,6 +1,7 @@
 package e2
 
 import (
+	"reflect"
 	"fmt"
 	"strings"
 	"testing"
@@ -73,7 +74,30 @@ func runMulti(rt *rapid.T, st *stats.Collector, focus []string, gapCheck bool) (
 					usedElsewhere = true
 				}
 			}
-			out := w.CreateTx(l, r)
+			var out TxOutcome
+			if want == ErrReferenceConflict {
+				// the refused write must leave nothing behind - also when its first attempt is the victim of a
+				// deadlock and the refusal comes from the retry path
+				before := w.Env.Sim.Dump()
+				fault := "no fault"
+				if rapid.Bool().Draw(t, "deadlockFirst") {
+					k := rapid.IntRange(1, 10).Draw(t, "deadlockAtStatement")
+					tr := withFault(w.Env.Sim, faultPlan{Kind: "deadlock", At: k}, func() { out = w.CreateTx(l, r) })
+					fault = fmt.Sprintf("deadlock injected at statement %d (fired: %v)", k, tr.Fired)
+					if tr.Fired {
+						st.Class("reference-conflict-after-deadlock-retry")
+					}
+				} else {
+					out = w.CreateTx(l, r)
+				}
+				if out.Kind == ErrReferenceConflict {
+					if after := w.Env.Sim.Dump(); !reflect.DeepEqual(before, after) {
+						w.V("C14", "ledger %s: create %s was refused with a reference conflict (%s) but left a trace\n%s\n%s", l.Name, r.describe(), fault, dumpDiff(before, after), w.allHistories())
+					}
+				}
+			} else {
+				out = w.CreateTx(l, r)
+			}
 			if out.Kind != want {
 				code := "C25"
 				if want == ErrReferenceConflict || out.Kind == ErrReferenceConflict {
